@@ -19,13 +19,13 @@ from symx import core, patch
 from symx.fs import SymFS
 
 
-def sym_ref(mesh, fields, layout, extra):
+def sym_ref(mesh, fields, layout, extra, level_prefix='Level_'):
     nd = mesh.ndims
     lo = [core.real('lo%d' % d) for d in range(nd)]
     dx0 = [core.real('dx%d' % d) for d in range(nd)]
     t = core.real('time')
     return Ref('p', nd, fields, mesh.ncell0, mesh.boxes, layout=layout, lo=lo, dx0=dx0, time=t, ref_line_extra=extra,
-               steps=[3 + l for l in range(len(mesh.boxes))])
+               steps=[3 + l for l in range(len(mesh.boxes))], level_prefix=level_prefix)
 
 
 def assume_geometry(ctx, ref):
@@ -118,7 +118,7 @@ def check_attrs(obl, pck, ref, limit, header_only, maxmins, what):
             obl.holds(tuple(int(x) for x in c['indexes'][b][0]) == lo_ and tuple(int(x) for x in c['indexes'][b][1]) == hi_,
                       '%s: cells[%d][indexes][%d] = %s, expected %s' % (what, l, b, c['indexes'][b], (lo_, hi_)))
             fname, off = offs[b]
-            obl.holds(os.path.normpath(c['files'][b]) == os.path.normpath(os.path.join('plt', 'Level_%d' % l, fname)),
+            obl.holds(os.path.normpath(c['files'][b]) == os.path.normpath(os.path.join('plt', '%s%d' % (ref.level_prefix, l), fname)),
                       '%s: cells[%d][files][%d] = %s, expected %s' % (what, l, b, c['files'][b], fname))
             obl.holds(int(c['offsets'][b]) == off, '%s: cells[%d][offsets][%d] = %s, expected %d' % (what, l, b, c['offsets'][b], off))
         if maxmins:
@@ -142,7 +142,7 @@ def run_case(case):
     res = CaseResult()
     mods = common.mods()
     mesh = case['mesh']
-    ref = sym_ref(mesh, case['fields'], case['layout'], case.get('ref_extra', 0))
+    ref = sym_ref(mesh, case['fields'], case['layout'], case.get('ref_extra', 0), case.get('level_prefix', 'Level_'))
     PlotfileCooker = mods['amr_kitchen.plotfile_cooker'].PlotfileCooker
     viol = {}
     runs = []
@@ -160,7 +160,7 @@ def run_case(case):
             ref.write_symfs(fs, '/work/plt')
             if header_only:
                 for l in range(ref.nlev):
-                    fs.rmtree('/work/plt/Level_%d' % l)
+                    fs.rmtree('/work/plt/%s%d' % (ref.level_prefix, l))
                 fs.audit.clear()
             obl = Obl(ctx)
             what = 'PlotfileCooker(limit_level=%r, header_only=%r, maxmins=%r)' % (limit, header_only, maxmins)
@@ -243,7 +243,7 @@ def make_replay(ref, v):
            'offsets': [[list(ref.offsets(l)[b]) for b in range(len(ref.boxes[l]))] for l in range(ref.nlev)],
            'mins': [[[float(val(x)) for x in row] for row in lv] for lv in ref.mins],
            'maxs': [[[float(val(x)) for x in row] for row in lv] for lv in ref.maxs]}
-    case = {'property': 'C02', 'handler': 'c02', 'signature': v['signature'], 'what': v['what'], 'args': v['args'], 'expected': exp}
+    case = {'property': 'C02', 'handler': 'c02', 'signature': v['signature'], 'what': v['what'], 'args': v['args'], 'expected': exp, 'level_prefix': ref.level_prefix}
     with open(os.path.join(d, 'case.json'), 'w') as f:
         json.dump(case, f, indent=1)
     common.write_replay_stub(d)
@@ -263,6 +263,10 @@ def cases():
         for k in range(1 if tier == 'quick' else 3):
             out.append({'label': '%s/k%d' % (m.name, k), 'mesh': m, 'fields': fsets[(i + k + 4) % len(fsets)],
                         'layout': families.scatter_layouts(m, rnd, max_files=3), 'ref_extra': (i + k) % 3})
+    # level directories under another name than Level_n (the Header says where each level lives)
+    for i, m in enumerate(meshes[3:6] if tier == 'quick' else meshes):
+        out.append({'label': '%s/lev-prefix' % m.name, 'mesh': m, 'fields': fsets[i % len(families.FIELD_SETS)], 'layout': families.scatter_layouts(m, rnd, max_files=2),
+                    'ref_extra': i % 2, 'level_prefix': ['Lev_', 'L', 'amr_level_'][i % 3]})
     for r in range(6 if tier == 'quick' else 300):
         nd = rnd.choice([2, 3])
         m = families.random_mesh(rnd, nd, max_levels=3, max_boxes=4, max_extent=4)
